@@ -302,8 +302,8 @@ let mon_c08_component (case : string list) (result : string) : string =
     let o = bytes_of_hex h and nw = bytes_of_hex r in
     if not (first_label_encodable o) then "PASS outside-quantifier"
     else if rename_ok o nw then "PASS"
-    else if not (rename_keeps_rest o nw) then "FAIL known=51"
-    else if not (first_label_encodable nw) then "FAIL known=52"
+    else if not (rename_keeps_rest o nw) then "FAIL fail=51 (the rest after the first unescaped dot changed)"
+    else if not (first_label_encodable nw) then "FAIL fail=52 (first label no longer encodable)"
     else "FAIL fail=53"
   | [ "cmp"; a; b ], [ "OK"; cab; _; cba ] ->
     let ra = parse_rec_k a and rb = parse_rec_k b in
